@@ -140,7 +140,7 @@ def run(ctx):
     ctx.ob(2, "K2", "the scheduler refuses to start unless there are exactly two pools", two, ini, ini.node, construct="assert num_pools == 2", detail=f"holds at exit of init: {two}")
     # (3) every Assignment
     sites = [c for fn_, c in sched.assignment_sites(P, f) if same_fn(fn_, f)]
-    ctx.count_min("Assignment( sites in priority-pool", len(sites), 3)
+    ctx.count_min("Assignment( sites in priority-pool", len(sites), 1)
     for c in sites:
         jl = enclosing_for(c, f.node)
         ql = enclosing_for(jl, f.node) if jl is not None else None
